@@ -100,6 +100,10 @@ def one_of(kind):
     return {"real": Poly.const(1), "int": Poly.const(1), "complex": SC(1, 0), "quat": SQ(1, 0, 0, 0)}[kind]
 
 
+def _is_bool_dtype(dtype):
+    return (isinstance(dtype, TypeModel) and dtype.name in ("bool", "bool_")) or dtype in ("bool", "?") or dtype is bool or dtype is np.bool_
+
+
 def dt_of(dtype):
     """tag of a buffer ALLOCATED with a dtype read off input <src>: ('alloc', src).  (The inputs themselves, their views and copies
     carry the plain tag src; stores into those are in-place updates of the caller's array and are not judged.)"""
@@ -302,9 +306,17 @@ class _ArithUFunc:
     def __init__(self, dom, op, name):
         self.dom, self.op, self.name = dom, op, name
 
-    def __call__(self, a, b, **k):
+    def __call__(self, a, b, out=None, **k):
         kw_strict(k, f"np.{self.name}")
-        return self.dom.binop(self.dom._interp, self.op, a, b, None)
+        r = self.dom.binop(self.dom._interp, self.op, a, b, None)
+        if out is None:
+            return r
+        if isinstance(out, tuple) and len(out) == 1:
+            out = out[0]
+        if not isinstance(out, SymArr):
+            raise Unsupported("out= with a non-array target")
+        self.dom.setitem(self.dom._interp, out, Ellipsis, r, getattr(self.dom, "_cur_node", None))
+        return out
 
     def reduce(self, a, axis=0, keepdims=False, **k):
         kw_strict(k, f"np.{self.name}.reduce")
@@ -401,7 +413,7 @@ class SymDomain(BaseDomain):
             floating=TypeModel("floating", lambda v: isinstance(v, (float, Poly))),
             integer=TypeModel("integer", lambda v: isinstance(v, int) and not isinstance(v, bool)),
             inf=float("inf"), pi=3.141592653589793, newaxis=None,
-            zeros=d.np_zeros, empty=d.np_empty, ones=lambda s, dtype=None: with_dt(mk(s, dtype_kind(dtype), one_of(dtype_kind(dtype))), dt_of(dtype)),
+            zeros=d.np_zeros, empty=d.np_empty, ones=lambda s, dtype=None: mk(s, "real", fill=True) if _is_bool_dtype(dtype) else with_dt(mk(s, dtype_kind(dtype), one_of(dtype_kind(dtype))), dt_of(dtype)),
             result_type=d.np_result_type, promote_types=d.np_result_type,
             eye=d.np_eye, identity=lambda n, dtype=None: d.np_eye(n, dtype=dtype),
             array=d.np_array, asarray=d.np_array, copy=lambda a: wrap(a).copy(),
@@ -505,6 +517,8 @@ class SymDomain(BaseDomain):
 
     def np_zeros(self, shape, dtype=None, **k):
         kw_strict(k, "zeros/empty")
+        if _is_bool_dtype(dtype):
+            return mk(shape, "real", fill=False)
         kind = dtype_kind(dtype)
         if kind is None:
             raise Unsupported(f"dtype {dtype!r}")
@@ -1151,6 +1165,8 @@ class SymDomain(BaseDomain):
         a = wrap(a)
         out = a.copy()
         z = zero_of(a.kind)
+        if a.size and all(isinstance(v, (bool, np.bool_)) for v in a.reshape(-1)):
+            z = False                     # boolean mask stays boolean
         for i in range(a.shape[0]):
             for j in range(a.shape[1]):
                 if (j < i + k) if upper else (j > i + k):
@@ -1414,6 +1430,23 @@ class SymDomain(BaseDomain):
             b = int(b)
         if isinstance(a, Opaque) or isinstance(b, Opaque):
             return a if isinstance(a, Opaque) else b
+        if op in (operator.and_, operator.or_, operator.xor) and (isinstance(a, SymArr) or isinstance(b, SymArr)):
+            # elementwise logic on masks: entries are Python bools, 0/1 constants (np.ones(dtype=bool)) or undecided conditions
+            def tobool(x):
+                if isinstance(x, (bool, np.bool_)) or is_unknown(x):
+                    return bool(x) if not is_unknown(x) else x
+                if isinstance(x, Poly) and x.is_const() and x.const_value() in (0, 1):
+                    return bool(x.const_value())
+                if isinstance(x, (int, np.integer)) and x in (0, 1):
+                    return bool(x)
+                raise Unsupported(f"bitwise {op.__name__} on non-boolean data")
+            conv = np.frompyfunc(tobool, 1, 1)
+            aa = conv(np.asarray(a, dtype=object)) if isinstance(a, SymArr) else tobool(a)
+            bb = conv(np.asarray(b, dtype=object)) if isinstance(b, SymArr) else tobool(b)
+            try:
+                return SymArr(op(aa, bb), "real")
+            except ValueError as e:
+                raise ModelError(str(e))
         if op is operator.matmul:
             return self.matmul(a, b)
         if isinstance(a, SymArr) or isinstance(b, SymArr):
